@@ -73,7 +73,13 @@ func exec(h *rt.H, s *state, op string) string {
 		if before < k {
 			want = before
 		}
-		if n != want || bits.OnesCount32(mark) != n || mark&s.mask != mark {
+		if k < 0 {
+			// a negative size allocates nothing and echoes the size (documented Go behaviour, no property claim
+			// beyond "nothing is handed out")
+			if mark != 0 || s.m.AvailableMarkBitCount() != before {
+				h.OracleFail("block-negative", "negative block size handed out bits", map[string]any{"mask": s.mask, "size": k, "mark": mark})
+			}
+		} else if n != want || bits.OnesCount32(mark) != n || mark&s.mask != mark {
 			h.OracleFail("block-size", "block allocation returned wrong number of bits", map[string]any{"mask": s.mask, "size": k, "mark": mark, "n": n})
 		}
 		return fmt.Sprintf("%d %d", mark, n)
@@ -141,7 +147,11 @@ func genCase(h *rt.H) []string {
 		case 0, 1, 2:
 			ops = append(ops, "single")
 		case 3:
-			ops = append(ops, fmt.Sprintf("block %d", h.Intn(pc+3)))
+			if h.Intn(12) == 0 {
+				ops = append(ops, fmt.Sprintf("block %d", -1-h.Intn(5)))
+			} else {
+				ops = append(ops, fmt.Sprintf("block %d", h.Intn(pc+3)))
+			}
 		case 4, 5, 6:
 			var k int64
 			switch h.Intn(6) {
